@@ -587,6 +587,33 @@ pub fn run(which: Which, tier: &str, seed: u64, out: &str) {
     coverage.put("root_neighbourhood", stats_json(&gs).set("depth", depth).set("root_count", roots.len()));
     eprintln!("[{}] roots: {} states, {} transitions, {} merges, depth {} ({:.1}s)", which.id(), gs.states, gs.transitions, gs.merges, gs.max_depth, rep.elapsed());
 
+    // ---- B(E, d): neighbourhoods of the extreme roots (move lists as long as chess allows)
+    let extreme = match roots::extreme_roots() {
+        Ok(r) => r,
+        Err(e) => {
+            eprintln!("MACHINERY ERROR: {}", e);
+            std::process::exit(2);
+        }
+    };
+    if !rep.saturated() {
+        let d: usize = if thorough { 3 } else { 2 };
+        let eb: Vec<(Board, u64)> = extreme.iter().filter_map(|r| setup(&r.pos, &rep, which.id())).map(|b| (b, 0)).collect();
+        let ge = explore(&eb, d, max_states, &pc);
+        if ge.capped {
+            rep.cap(format!("extreme-root neighbourhood stopped after {} states (cap {} or violation saturation)", ge.states, max_states));
+        }
+        total_states += ge.states;
+        total_transitions += ge.transitions;
+        let longest = extreme.iter().map(|r| r.pos.legal_moves().len()).max().unwrap_or(0);
+        let most_tactical = extreme.iter().filter(|r| !r.pos.in_check(r.pos.stm)).map(|r| r.pos.tactical_moves().len()).max().unwrap_or(0);
+        let most_evasions = extreme.iter().filter(|r| r.pos.in_check(r.pos.stm)).map(|r| r.pos.legal_moves().len()).max().unwrap_or(0);
+        coverage.put(
+            "extreme_root_neighbourhood",
+            stats_json(&ge).set("depth", d).set("root_count", extreme.len()).set("longest_legal_move_list", longest).set("longest_tactical_move_list", most_tactical).set("longest_evasion_list", most_evasions),
+        );
+        eprintln!("[{}] extreme roots: {} states, {} transitions, depth {} ({:.1}s)", which.id(), ge.states, ge.transitions, ge.max_depth, rep.elapsed());
+    }
+
     // ---- the board the engine itself starts from: `Board::default()` (what `position startpos`
     // and `ucinewgame` use), explored on its own so that its states are never merged with boards
     // read from a FEN: anything a board carries besides its bitboards comes from its constructor
@@ -679,7 +706,11 @@ pub fn run(which: Which, tier: &str, seed: u64, out: &str) {
 
     // ---- C17(b): the move list the real quiescence search uses at every node it reaches
     if which == Which::C17 && !rep.saturated() {
-        let tq = trace_part(crate::eng::tl_mg(), &rep, &roots, thorough);
+        let mut troots: Vec<roots::Root> = Vec::new();
+        for r in roots.iter().chain(extreme.iter()) {
+            troots.push(roots::Root { name: r.name.clone(), pos: r.pos.clone() });
+        }
+        let tq = trace_part(crate::eng::tl_mg(), &rep, &troots, thorough);
         total_states += tq.0;
         total_transitions += tq.1;
         coverage.put(
